@@ -47,7 +47,7 @@ class C18(Check):
                    'running: struct/member agreement is read under the module\'s access lock)',
                    'closest allowed value: ties may go either way']
     PROBES = ('c18.struct-op', 'c18.floatenum-op', 'c18.limit-op', 'c18.inverted-limits', 'c18.control-op',
-              'c18.driver-op', 'c18.wire-op', 'c18.takeover', 'c18.concurrent-driver-assignment', 'fault.hw-read', 'fault.hw-write')
+              'c18.driver-op', 'c18.wire-op', 'c18.takeover', 'c18.concurrent-driver-assignment', 'fault.hw-read', 'fault.hw-write', 'c18.stale-controller-output')
 
     def gen_case(self, rng, tier):
         members = rng.sample(['a', 'b', 'c'], rng.choice([2, 3]))
@@ -81,7 +81,7 @@ class C18(Check):
                     op['lo'], op['hi'] = max(op['lo'], op['hi']) + 1, min(op['lo'], op['hi'])
                 op['which'] = rng.choice(['min', 'max'])
             else:
-                op = {'group': 'control', 'kind': rng.choice(['ctl', 'ctl', 'out']), 'c': rng.randrange(shape['nctl']),
+                op = {'group': 'control', 'kind': rng.choice(['ctl', 'ctl', 'out', 'stale']), 'c': rng.randrange(shape['nctl']),
                       'v': round(rng.random() * 100, 1)}
             op['who'] = who
             if op['group'] in ('struct', 'fe') and rng.random() < 0.3:
@@ -304,7 +304,12 @@ class C18(Check):
                                 getattr(mod, f'write_x_{which}')(op['lo'])
                 else:
                     sim.count('c18.control-op')
-                    if k == 'ctl':
+                    if k == 'stale':
+                        # a control loop delivers an output it calculated before (it may have lost control meanwhile)
+                        name = f'ctl{op["c"] % shape["nctl"]}'
+                        sim.count('c18.stale-controller-output')
+                        out.update_target(name, op['v'])
+                    elif k == 'ctl':
                         name = f'ctl{op["c"] % shape["nctl"]}'
                         if who == 'wire':
                             reply = wire(f'change {name}:target {json.dumps(op["v"])}')
@@ -424,6 +429,13 @@ class C18(Check):
                         cnt['c18.takeover'] = cnt.get('c18.takeover', 0) + 1
                     if abs(a['out_target'] - op['v']) > 1e-9:
                         res.append(Violation('C18.takeover-failed', 'target', f'{what}: output target {a["out_target"]}'))
+                        return res
+                elif op['kind'] == 'stale':
+                    # the output of a loop which is not (or no longer) in control changes nobody's control state
+                    if a['active'] != b['active'] or a['controlled_by'] != b['controlled_by']:
+                        res.append(Violation('C18.controlled-by-mismatch', 'stale-output',
+                                             f'{what}: control state was {b["active"]} / {b["controlled_by"]}, is '
+                                             f'{a["active"]} / {a["controlled_by"]}'))
                         return res
                 elif nact:
                     res.append(Violation('C18.takeover-failed', 'output-self', f'{what}: output set directly, but {a["active"]}'))
